@@ -298,6 +298,44 @@ def defaultLoader : Loader := ⟨0, .plain, .empty⟩
 
 def applyOptions (opts : List Opt) : List Loader := applyFrom [defaultLoader] opts
 
+/-! ### several Initialize calls on ONE live Configure (configure.go:40-72)
+
+  `configure` keeps two things between calls: the loader list (`c.loaders`, which loadConfigure REPLACES by the sorted
+  list, configure.go:55) and the binder (viper: everything merged so far; there is no reset).  Initialize has no
+  "already initialised" state: every call sorts the whole current list and feeds EVERY loader's output to
+  Binder.SetConfig again, on top of what the binder holds. -/
+
+/-- a live Configure: the loader list as stored now, and what its binder holds -/
+structure St where
+  loaders : List Loader
+  acc : Cfg
+  deriving Repr
+
+/-- `app.NewApp()`: configure.Default() = [ArgsLoader(os.Args)], a new viper -/
+def St.app : St := ⟨[defaultLoader], .map []⟩
+/-- `configure.NewConfigure()` + `SetBinder(binder.NewViperBinder("yaml"))`: no loader at all -/
+def St.bare : St := ⟨[], .map []⟩
+
+/-- one option applied to a live App (`opt(app)`) / one call on a live Configure.  SetConfigure installs ANOTHER
+    Configure (options.go:34-38) — in the scenarios a fresh one with its own new binder —, everything else changes
+    the loader list only (options.go:40-62, configure.go:28-34) and leaves the binder alone. -/
+def stepOpt (s : St) : Opt → St
+  | .setConfigure ls => ⟨ls, .map []⟩
+  | o => ⟨applyStep s.loaders o, s.acc⟩
+
+/-- Configure.Initialize (configure.go:40-52) with loadConfigure (54-72): nothing for an empty list; otherwise the
+    list is replaced by the sorted one and all of it is loaded on top of the binder's content.
+    `.error true` = panic, `.error false` = an error is returned (the walk stops at the first failing loader). -/
+def initOnce (s : St) : Except Bool St :=
+  if s.loaders.isEmpty then .ok s
+  else
+    match loadLoop (loaderSeq s.loaders) s.acc with
+    | .ok c => .ok ⟨loaderSeq s.loaders, c⟩
+    | .error b => .error b
+
+/-- a batch of options / calls followed by one Initialize (the first batch of an App is `Run(opts…)`) -/
+def runPhase (s : St) (opts : List Opt) : Except Bool St := initOnce (opts.foldl stepOpt s)
+
 /-! ### rendering helpers shared by driver and examples -/
 
 mutual
